@@ -24,6 +24,7 @@ import (
 	"sort"
 	"strconv"
 	"strings"
+	"sync"
 	"time"
 
 	"reservoir/config"
@@ -489,6 +490,14 @@ func (h *harness) do(q req) (int, int) {
 	if q.site != "" {
 		hr.Header.Set("Sec-Fetch-Site", q.site)
 	}
+	// an Authorization field is no credential here (sessions are cookies): a seventh of the requests carries one, in the
+	// forms clients and scrapers send, and nothing about the answer may depend on it
+	authz := ""
+	if h.r.Intn(7) == 0 {
+		authz = emit.Pick(h.r, []string{"Bearer", "Bearer ", "Bearer x", "bearer", "Basic YWRtaW46", "Basic", "Token", "Bearer null"})
+		hr.Header.Set("Authorization", authz)
+		h.meta.Count("authorization_field", authz)
+	}
 	timeout := 10 * time.Second
 	if strings.HasSuffix(q.path, "/log/stream") {
 		timeout = 1500 * time.Millisecond
@@ -554,6 +563,9 @@ func (h *harness) do(q req) (int, int) {
 	}
 	if q.origin != "" || q.site != "" {
 		desc += fmt.Sprintf(" origin=%q site=%q", q.origin, q.site)
+	}
+	if authz != "" {
+		desc += fmt.Sprintf(" authorization=%q", authz)
 	}
 	if q.body.kind != "none" || q.body.rawNone != "" {
 		desc += " body=" + q.body.String()
@@ -984,6 +996,72 @@ func (h *harness) logoutWithoutDatabase() {
 	h.end("logout-without-database")
 }
 
+// concurrentLogins (direct): every login is judged on its OWN password. While a login with the right password is being
+// checked (an expensive stored hash keeps the check busy for a while), logins of the same user with wrong passwords
+// arrive: none of them may be answered with a session.
+func (h *harness) concurrentLogins() {
+	h.begin()
+	saved := h.rowString(1)
+	right := "the right password of the overlap scenario"
+	salt := []byte("overlap-salt-012") // 16 bytes: the only salt length ParsePHC reads
+	key := argon2.IDKey([]byte(right), salt, 4, 32*1024, 1, 32)
+	costly := fmt.Sprintf("$argon2id$v=19$m=32768,t=4,p=1,l=32$%s$%s", base64.RawStdEncoding.EncodeToString(salt), base64.RawStdEncoding.EncodeToString(key))
+	if err := h.dbh.Exec("UPDATE users SET password_hash = ? WHERE id = ?", costly, int64(1)); err != nil {
+		panic(fmt.Sprintf("web: cannot write password row: %v", err))
+	}
+	post := func(pw string) (int, bool) {
+		j, _ := json.Marshal(map[string]string{"username": "admin", "password": pw})
+		rq, _ := http.NewRequest("POST", h.base+"/api/auth/login", bytes.NewReader(j))
+		rq.Header.Set("Content-Type", "application/json")
+		cl := &http.Client{Transport: &http.Transport{DisableKeepAlives: true}, Timeout: 30 * time.Second}
+		resp, err := cl.Do(rq)
+		if err != nil {
+			return -1, false
+		}
+		io.Copy(io.Discard, resp.Body)
+		resp.Body.Close()
+		return resp.StatusCode, strings.Contains(strings.Join(resp.Header.Values("Set-Cookie"), ";"), "reservoir.sid=")
+	}
+	wrongAccepted, rightRefused, n := 0, 0, 0
+	for round := 0; round < 3; round++ {
+		var wg sync.WaitGroup
+		var mu sync.Mutex
+		wg.Add(1)
+		go func() {
+			defer wg.Done()
+			if st, _ := post(right); st != 200 {
+				mu.Lock()
+				rightRefused++
+				mu.Unlock()
+			}
+		}()
+		for g := 0; g < 4; g++ {
+			wg.Add(1)
+			go func(g int) {
+				defer wg.Done()
+				time.Sleep(time.Duration(5+10*g) * time.Millisecond) // while the right password is being checked
+				st, cookie := post(fmt.Sprintf("guess-%d-%d", round, g))
+				mu.Lock()
+				n++
+				if st == 200 || cookie {
+					wrongAccepted++
+				}
+				mu.Unlock()
+			}(g)
+		}
+		wg.Wait()
+	}
+	h.dbh.Exec("UPDATE users SET password_hash = ? WHERE id = ?", saved, int64(1))
+	h.meta.Count("concurrent_logins", fmt.Sprintf("wrong=%d accepted=%d", n, wrongAccepted))
+	if wrongAccepted > 0 {
+		h.meta.DirectFail(map[string]any{"kind": "wrong-password-accepted", "what": fmt.Sprintf("%d of %d logins with a WRONG password were answered with a session; each arrived while a login of the same user with the right password was being checked", wrongAccepted, n)})
+	}
+	if rightRefused > 0 {
+		h.meta.DirectFail(map[string]any{"kind": "right-password-refused", "what": fmt.Sprintf("%d of 3 logins with the right password were refused while wrong-password logins of the same user overlapped them", rightRefused)})
+	}
+	h.end("concurrent-logins")
+}
+
 // G5: random histories over the whole alphabet
 func (h *harness) randomHistory() {
 	h.begin()
@@ -1194,6 +1272,7 @@ func main() {
 	}
 	h.streamVersusLogout()
 	h.logoutWithoutDatabase()
+	h.concurrentLogins()
 	h.w.Flush()
 	h.meta.Exhaustive = false
 	h.meta.Write(*flagOut, h.w.Files)
